@@ -280,6 +280,11 @@ func main() {
 				"(t + time.hour) - time.hour == t and (t - time.from_timestamp(0)) + time.from_timestamp(0) == t",
 				"(lambda u: time.time(year=u.year, month=u.month, day=u.day, hour=u.hour, minute=u.minute, second=u.second, nanosecond=u.nanosecond) == u)(t.in_location('UTC'))",
 				"t.in_location('') == t and str(t.in_location('')) == str(t.in_location('UTC'))",
+				// the calendar and clock attributes are those of the value's own zone, i.e. what format prints
+				"t.format('2006-1-2 4 5') == '%d-%d-%d %d %d' % (t.year, t.month, t.day, t.minute, t.second) and int(t.format('15')) == t.hour",
+				"(lambda u: u.format('2006-1-2 4 5') == '%d-%d-%d %d %d' % (u.year, u.month, u.day, u.minute, u.second) and int(u.format('15')) == u.hour)(t.in_location('Asia/Tokyo'))",
+				"(lambda u: u.format('2006-1-2 4 5') == '%d-%d-%d %d %d' % (u.year, u.month, u.day, u.minute, u.second) and int(u.format('15')) == u.hour)(t.in_location('America/Los_Angeles'))",
+				"(lambda u: time.time(year=u.year, month=u.month, day=u.day, hour=u.hour, minute=u.minute, second=u.second, nanosecond=u.nanosecond, location='Asia/Tokyo') == u)(t.in_location('Asia/Tokyo'))",
 				"str(time.time(year=2001, month=2, day=3, hour=4)) == str(time.time(year=2001, month=2, day=3, hour=4, location='UTC'))",
 			} {
 				v, err := starlark.Eval(thread, "c19", src, env)
